@@ -420,6 +420,7 @@ func (ctx *Ctx) cmp(path []byte, cond op, right []byte) bool {
 		v := &ctx.vars[i]
 		if v.key == ctx.bufS[0] {
 			// Compare var with right value using inspector.
+			ctx.bufBl = false
 			ctx.Err = v.ins.Compare(v.val, inspector.Op(cond), byteconv.B2S(right), &ctx.bufBl, ctx.bufS[1:]...)
 			if ctx.Err != nil {
 				return false
